@@ -836,6 +836,29 @@ pub fn compress_families() -> Vec<Vec<u8>> {
         }
         out.push(p);
     }
+    // names that differ only in bit 5 of a byte that is not a letter are different names
+    for (x, y) in [(b'[', b'{'), (b'@', b'`'), (b'^', b'~'), (0xc9u8, 0xe9u8), (b']', b'}'), (b'1', b'q')] {
+        for swap in [false, true] {
+            let (x, y) = if swap { (y, x) } else { (x, y) };
+            let n1 = [3u8, b'a', x, b'b', 7, b'e', b'x', b'a', b'm', b'p', b'l', b'e', 3, b'c', b'o', b'm', 0];
+            let n2 = [3u8, b'a', y, b'b', 7, b'e', b'x', b'a', b'm', b'p', b'l', b'e', 3, b'c', b'o', b'm', 0];
+            let mut p = header(25, 0x8000, 1, 3, 1, 0);
+            question(&mut p, &n1[4..], 1);
+            rr(&mut p, &n1, 1, 1, &[1, 1, 1, 1]);
+            rr(&mut p, &n2, 1, 2, &[2, 2, 2, 2]);
+            rr(&mut p, &n1, 5, 3, &n2);
+            rr(&mut p, &n2, 2, 4, &n1);
+            out.push(p);
+            // single-label variant: the whole suffix differs
+            let s1 = [4u8, b'e', b'x', x, b'm', 3, b'o', b'r', b'g', 0];
+            let s2 = [4u8, b'e', b'x', y, b'm', 3, b'o', b'r', b'g', 0];
+            let mut p = header(25, 0x8000, 1, 2, 0, 0);
+            question(&mut p, &s1, 1);
+            rr(&mut p, &s2, 1, 1, &[1, 1, 1, 1]);
+            rr(&mut p, &s1, 1, 1, &[1, 1, 1, 1]);
+            out.push(p);
+        }
+    }
     // mixed-case duplicates, in owners and in data of each name-bearing type
     for ty in [2u16, 5, 12, 15, 6] {
         let lower = [3u8, b'w', b'w', b'w', 7, b'e', b'x', b'a', b'm', b'p', b'l', b'e', 3, b'c', b'o', b'm', 0];
